@@ -27,7 +27,7 @@ RULE = ('generated modules (plus COMPONENTS OF same-module and imported, EXTENSI
         'distinct by (history signature, final codec/numeric, module key)')
 ASSUMPTIONS = ['observable behaviour = bytes of probe values, repr of decoded values, class+text of errors on corrupted probes',
                'reference = compile_string on the original text in the same process']
-REPORT = ['modules', 'histories', 'evaluations', 'probe_comparisons', 'plain_data_walks', 'pformat_eval_roundtrips',
+REPORT = ['modules', 'parameterized_modules', 'histories', 'evaluations', 'probe_comparisons', 'plain_data_walks', 'pformat_eval_roundtrips',
           'ordered_pairs_covered']
 FLOORS = {'quick': {'histories': 1000, 'probe_comparisons': 20000},
           'thorough': {'histories': 4000, 'probe_comparisons': 80000}}
@@ -143,6 +143,74 @@ def run_shard(ctx):
             ctx.violation('pformat_eval_does_not_reproduce_parse_output', {'text': gs.text}, {})
         vg = V.ValueGen(gs.env, gs.rnd, ctx.tier, max_len=24, big_len_p=0.0)
         probes = battery(gs, rnd, vg, pr['values'])
+        run_histories(ctx, at, rnd, pairs, pr, key, gs.text, d0, probes, gs.has_enum,
+                      lambda spec, numeric, gs=gs, probes=probes: behaviour(gs, spec, probes, numeric))
+    # parameterized types (not produced by my generator): a small family of legal texts with hand-made probes
+    for i in range(1 if ctx.tier == 'quick' else 3):
+        key = '{}/{}/{}/param{}'.format(ctx.seed, ID, ctx.shard, i)
+        text, pprobes = param_family(core.random.Random(key))
+        st.inc('modules')
+        st.inc('parameterized_modules')
+        try:
+            d0 = at.parse_string(text)
+        except Exception:
+            st.inc('rejected_by_parser')
+            continue
+        probes = [(None, name, None, 'valid', v) for name, v in pprobes]
+        run_histories(ctx, at, rnd, pairs, pr, key, text, d0, probes, False,
+                      lambda spec, numeric, pprobes=pprobes: plain_behaviour(spec, pprobes))
+    st.inc('ordered_pairs_covered', 0)
+    for a, b in pairs:
+        st.add('pairs', '{}{}>{}{}'.format(a[0], '#' if a[1] else '', b[0], '#' if b[1] else ''))
+    reach.close()
+
+
+ACTUALS = [('INTEGER', [5, -3]), ('BOOLEAN', [True]), ('OCTET STRING', [b'\x01\x02']),
+           ('CHOICE { x INTEGER, y BOOLEAN }', [('x', 5), ('y', True)]),
+           ('SEQUENCE { p NULL, q INTEGER OPTIONAL }', [{'p': None}, {'p': None, 'q': 3}]),
+           ('IA5String', ['ab']), ('SEQUENCE OF INTEGER', [[1, 2], []]), ('NULL', [None]),
+           ('CHOICE { u NULL, w OCTET STRING }', [('u', None), ('w', b'\x05')])]
+
+
+def param_family(rnd):
+    """-> (text, [(type name, value)]): parameterized types instantiated with built-in, structured and CHOICE actual parameters."""
+    tags = rnd.choice(['', 'IMPLICIT TAGS', 'EXPLICIT TAGS', 'AUTOMATIC TAGS'])
+    mode = rnd.choice(['', '', 'EXPLICIT '])
+    a1, a2, a3, a4 = [rnd.choice(ACTUALS) for _ in range(4)]
+    text = ('P DEFINITIONS {tags} ::= BEGIN\n'
+            'Holder {{T}} ::= SEQUENCE {{ a [0] {mode}T, b INTEGER }}\n'
+            'Pair {{T1, T2}} ::= SEQUENCE {{ x T1, y [1] T2 OPTIONAL }}\n'
+            'A ::= Holder {{ {a1} }}\n'
+            'B ::= Pair {{ {a2}, {a3} }}\n'
+            'C ::= SEQUENCE {{ h Holder {{ {a4} }}, k BOOLEAN }}\n'
+            'END\n').format(tags=tags, mode=mode, a1=a1[0], a2=a2[0], a3=a3[0], a4=a4[0])
+    probes = []
+    for v in a1[1]:
+        probes.append(('A', {'a': v, 'b': 1}))
+    for v in a2[1]:
+        probes.append(('B', {'x': v}))
+        probes.append(('B', {'x': v, 'y': a3[1][0]}))
+    for v in a4[1]:
+        probes.append(('C', {'h': {'a': v, 'b': -2}, 'k': True}))
+    return text, probes
+
+
+def plain_behaviour(spec, probes):
+    res = []
+    for name, v in probes:
+        enc = outcome(lambda: bytes(spec.encode(name, v)))
+        res.append(enc)
+        if enc[0] == 'value':
+            data = eval(enc[1])
+            res.append(outcome(lambda: spec.decode(name, data)))
+        else:
+            res.append(None)
+    return res
+
+
+def run_histories(ctx, at, rnd, pairs, pr, key, text, d0, probes, has_enum, behave):
+    st = ctx.stats
+    if True:
         refs = {}
         for h in range(pr['histories']):
             d = copy.deepcopy(d0)
@@ -154,7 +222,7 @@ def run_shard(ctx):
                 x = rnd.random()
                 if x < 0.7:
                     codec = rnd.choice(CODECS)
-                    numeric = rnd.random() < (0.5 if gs.has_enum else 0.15)
+                    numeric = rnd.random() < (0.5 if has_enum else 0.15)
                     steps.append('{}{}'.format(codec, '#' if numeric else ''))
                     try:
                         at.compile_dict(d, codec, numeric_enums=numeric)
@@ -168,7 +236,7 @@ def run_shard(ctx):
                     try:
                         d = eval(pprint.pformat(d))
                     except Exception as e:
-                        ctx.violation('pformat_eval_fails_after_compile', {'text': gs.text, 'history': steps},
+                        ctx.violation('pformat_eval_fails_after_compile', {'text': text, 'history': steps},
                                       {'error': common.short_exc(e)})
                         dead = True
                         break
@@ -178,7 +246,7 @@ def run_shard(ctx):
             if dead:
                 continue
             codec = rnd.choice(CODECS)
-            numeric = rnd.random() < (0.5 if gs.has_enum else 0.15)
+            numeric = rnd.random() < (0.5 if has_enum else 0.15)
             if last is not None:
                 pairs.add((last, (codec, numeric)))
             st.inc('histories')
@@ -186,11 +254,11 @@ def run_shard(ctx):
             rk = (codec, numeric)
             if rk not in refs:
                 try:
-                    ref = at.compile_string(gs.text, codec, numeric_enums=numeric)
-                    refs[rk] = ('ok', behaviour(gs, ref, probes, numeric))
+                    ref = at.compile_string(text, codec, numeric_enums=numeric)
+                    refs[rk] = ('ok', behave(ref, numeric))
                 except Exception as e:
                     refs[rk] = ('fail', common.short_exc(e))
-            case = {'text': gs.text, 'history': steps, 'final': [codec, numeric], 'key': key}
+            case = {'text': text, 'history': steps, 'final': [codec, numeric], 'key': key}
             try:
                 final = at.compile_dict(d, codec, numeric_enums=numeric)
             except Exception as e:
@@ -202,7 +270,7 @@ def run_shard(ctx):
             if refs[rk][0] != 'ok':
                 ctx.violation('compile_succeeds_after_history_but_fresh_fails', case, {'fresh_error': refs[rk][1]})
                 continue
-            got = behaviour(gs, final, probes, numeric)
+            got = behave(final, numeric)
             st.inc('evaluations')
             st.inc('probe_comparisons', len(got))
             exp = refs[rk][1]
@@ -219,10 +287,6 @@ def run_shard(ctx):
             if len(st.samples) < 3:
                 st.sample({'history': steps, 'final_codec': codec, 'numeric_enums': numeric, 'probes': len(probes),
                            'equal_to_fresh_compile': got == exp})
-    st.inc('ordered_pairs_covered', 0)
-    for a, b in pairs:
-        st.add('pairs', '{}{}>{}{}'.format(a[0], '#' if a[1] else '', b[0], '#' if b[1] else ''))
-    reach.close()
 
 
 def coverage_extra(agg):
